@@ -6,11 +6,13 @@ import (
 	"bytes"
 	"compress/gzip"
 	"encoding/json"
+	"fmt"
 	"io"
 	"os"
 	"path/filepath"
 	"sort"
 	"strings"
+	"sync/atomic"
 	"testing"
 	"time"
 
@@ -27,7 +29,8 @@ type verifSeed struct {
 }
 
 type verifEvent struct {
-	W []json.RawMessage `json:"w,omitempty"` // [id, len, "stamp"]
+	W []json.RawMessage   `json:"w,omitempty"` // [id, len, "stamp"]
+	B [][]json.RawMessage `json:"b,omitempty"` // burst: records submitted while the worker is parked
 	D *string           `json:"d,omitempty"` // boundary date "2006-01-02" of the released clean-up
 }
 
@@ -45,6 +48,60 @@ type verifCase struct {
 	Now0       string       `json:"now0"`
 	Events     []verifEvent `json:"events"`
 	EndB       string       `json:"endb"`
+	Front      *verifFront  `json:"front,omitempty"`
+}
+
+// verifFront selects the second stream: records are submitted through the logx writer front-end
+// (concreteWriter.Info -> output -> writeJson / writePlainText) instead of RotateLogger.Write.
+type verifFront struct {
+	Enc  string `json:"enc"`  // json | plain
+	Wire string `json:"wire"` // file: concreteWriter directly on the RotateLogger (newFileWriter); new: NewWriter(rotateLogger)
+}
+
+// verifTap sits where newFileWriter puts the RotateLogger; it remembers the bytes of every record at
+// the moment the front-end hands them over and forwards the very same slice.
+type verifTap struct {
+	l        *RotateLogger
+	accepted []string
+}
+
+func (t *verifTap) Write(p []byte) (int, error) {
+	t.accepted = append(t.accepted, string(p))
+	return t.l.Write(p)
+}
+
+func (t *verifTap) Close() error { return nil }
+
+// verifLines maps a complete line (front-end stream only) to the id of the record it encodes.
+var verifLines map[string]int
+
+func verifContent(id, n int) string {
+	return fmt.Sprintf("r%03d:", id) + strings.Repeat(string(rune('a'+id%26)), n)
+}
+
+func verifSeedLine(id, n int) string {
+	s := fmt.Sprintf("s%02d", id)
+	for len(s) < n-1 {
+		s += "x"
+	}
+	return s + "\n"
+}
+
+// verifEncodes reports whether line is the front-end's encoding of content (the Spec of the front-end).
+func verifEncodes(enc, line, content string) bool {
+	if !strings.HasSuffix(line, "\n") || strings.Count(line, "\n") != 1 {
+		return false
+	}
+	if enc == "plain" {
+		f := strings.Split(strings.TrimSuffix(line, "\n"), string(rune(plainEncodingSep)))
+		return len(f) == 3 && f[2] == content && strings.Contains(f[1], levelInfo)
+	}
+	var m map[string]any
+	if json.Unmarshal([]byte(line), &m) != nil {
+		return false
+	}
+	_, hasTs := m[timestampKey]
+	return hasTs && m[contentKey] == content && m[levelKey] == levelInfo && len(m) == 3
 }
 
 type verifFile struct {
@@ -236,6 +293,22 @@ func verifReadFile(path string) verifFile {
 		data = plain
 		vf.Gz++
 	}
+	if verifLines != nil {
+		// front-end stream: line by line; a line that is no accepted record (or seed line) gets id -1
+		for len(data) > 0 {
+			j := bytes.IndexByte(data, '\n') + 1
+			if j == 0 {
+				j = len(data)
+			}
+			id, ok := verifLines[string(data[:j])]
+			if !ok {
+				id = -1
+			}
+			vf.Runs = append(vf.Runs, [2]int{id, j})
+			data = data[j:]
+		}
+		return vf
+	}
 	for i := 0; i < len(data); {
 		j := i
 		for j < len(data) && data[j] == data[i] {
@@ -275,9 +348,25 @@ func verifRunCase(c verifCase) any {
 	if d, err := filepath.EvalSymlinks(dir); err == nil {
 		dir = filepath.Clean(d)
 	}
+	verifLines = nil
+	if c.Front != nil {
+		verifLines = map[string]int{}
+		if c.Front.Enc == "plain" {
+			atomic.StoreUint32(&encoding, plainEncodingType)
+		} else {
+			atomic.StoreUint32(&encoding, jsonEncodingType)
+		}
+		defer atomic.StoreUint32(&encoding, jsonEncodingType)
+	}
 	for _, s := range c.Seeds {
 		var data []byte
 		for _, r := range s.Recs {
+			if c.Front != nil {
+				line := verifSeedLine(r[0], r[1])
+				verifLines[line] = r[0]
+				data = append(data, line...)
+				continue
+			}
 			data = append(data, bytes.Repeat([]byte{byte(33 + r[0])}, r[1])...)
 		}
 		for k := 0; k < s.Gz; k++ {
@@ -379,25 +468,47 @@ func verifRunCase(c verifCase) any {
 		deferred = nil
 	}
 
+	var tap *verifTap
+	var fw Writer
+	if c.Front != nil {
+		tap = &verifTap{l: l}
+		if c.Front.Wire == "new" {
+			fw = NewWriter(tap)
+		} else {
+			fw = &concreteWriter{infoLog: tap, errorLog: tap, severeLog: tap, slowLog: tap, statLog: tap, stackLog: tap}
+		}
+	}
+	accepted := [][3]int{}
+	parse := func(raw []json.RawMessage) (id, n int, stamp string, ok bool) {
+		ok = len(raw) == 3 && json.Unmarshal(raw[0], &id) == nil && json.Unmarshal(raw[1], &n) == nil && json.Unmarshal(raw[2], &stamp) == nil
+		return
+	}
+	submit := func(id, n int) error {
+		if tap == nil {
+			_, err := l.Write(bytes.Repeat([]byte{byte(33 + id)}, n))
+			return err
+		}
+		content := verifContent(id, n)
+		before := len(tap.accepted)
+		fw.Info(content)
+		if len(tap.accepted) != before+1 {
+			return fmt.Errorf("front-end handed over %d writes for one record", len(tap.accepted)-before)
+		}
+		line := tap.accepted[before]
+		good := 0
+		if verifEncodes(c.Front.Enc, line, content) {
+			good = 1
+		}
+		verifLines[line] = id
+		accepted = append(accepted, [3]int{id, len(line), good})
+		return nil
+	}
 	nw := 0
-	for _, e := range c.Events {
-		if e.D != nil {
-			deferred = append(deferred, *e.D)
-			continue
-		}
-		var id, n int
-		var stamp string
-		if len(e.W) != 3 || json.Unmarshal(e.W[0], &id) != nil || json.Unmarshal(e.W[1], &n) != nil || json.Unmarshal(e.W[2], &stamp) != nil {
-			return fail("bad event")
-		}
-		data := bytes.Repeat([]byte{byte(33 + id)}, n)
-		if _, err := l.Write(data); err != nil {
-			return fail("write: " + err.Error())
-		}
+	pass := func(stamp string) bool {
 		select {
 		case <-w.entered:
 		case <-time.After(5 * time.Second):
-			return fail("worker did not take the record")
+			return false
 		}
 		settle()
 		w.scriptNow = stamp
@@ -405,6 +516,34 @@ func verifRunCase(c verifCase) any {
 		logs = append(logs, verifLog{W: &k})
 		nw++
 		w.release <- struct{}{}
+		return true
+	}
+	for _, e := range c.Events {
+		if e.D != nil {
+			deferred = append(deferred, *e.D)
+			continue
+		}
+		burst := e.B
+		if e.W != nil {
+			burst = [][]json.RawMessage{e.W}
+		}
+		var stamps []string
+		// the worker is parked (idle, or at the gate of the first record) while the burst is submitted
+		for _, raw := range burst {
+			id, n, stamp, ok := parse(raw)
+			if !ok {
+				return fail("bad event")
+			}
+			if err := submit(id, n); err != nil {
+				return fail("write: " + err.Error())
+			}
+			stamps = append(stamps, stamp)
+		}
+		for _, stamp := range stamps {
+			if !pass(stamp) {
+				return fail("worker did not take the record")
+			}
+		}
 	}
 	closeErr := l.Close()
 	settle()
@@ -417,6 +556,9 @@ func verifRunCase(c verifCase) any {
 		final = append(final, verifReadFile(filepath.Join(dir, n)))
 	}
 	res := map[string]any{"log": logs, "final": final, "rotations": rotations, "errs": errs}
+	if c.Front != nil {
+		res["accepted"] = accepted
+	}
 	if closeErr != nil {
 		res["close"] = "error"
 	} else {
